@@ -2,11 +2,18 @@
    a repeated run a no-op (no pool request, no metadata body, upstream dates
    kept) and their lift to a whole stage ([repeat_run_is_quiet]: for every queue
    of settled files nothing is pulled, no pool file is requested and the
-   filesystem is unchanged path by path).  That the whole tree after any history equals a fresh mirror of the
-   latest upstream is validated by the history correspondence (real runs
-   compared with a fresh real mirror), not proved: see DESIGN.md. *)
-From AM.Model Require Import Base Download Stage.
-From AM.Lemmas Require Import DownloadLemmas StageLemmas StageRunLemmas.
+   filesystem is unchanged path by path), and the two halves of "the tree is a
+   function of the upstream": after the pool stage and cleaning of a run that
+   counts nothing, the pool holds exactly the declared paths at their declared
+   sizes whatever was there before ([pool_tree_is_what_the_indices_declare],
+   [pool_tree_independent_of_history]); after a metadata stage answered by
+   complete bodies every path of every obtained variant carries the announced
+   size and date whatever was there before ([metadata_entries_determined_by_upstream]).
+   That these stages are chained as the model says (skel clean, staging, swap)
+   is the publish model of C03 and the history correspondence (real runs
+   compared with a fresh real mirror): see DESIGN.md. *)
+From AM.Model Require Import Base Download Stage Converge.
+From AM.Lemmas Require Import DownloadLemmas StageLemmas StageRunLemmas ConvergeLemmas.
 Open Scope string_scope.
 Open Scope list_scope.
 
@@ -77,4 +84,62 @@ Example repeat_run_example :
   forallb (fun q => match lookup fs2 q, lookup fs1 q with
                     | Some a, Some b => finfo_eqb a b | _, _ => false end)
           ["d/by-hash/SHA256/ab"; "d/Packages.xz"; "pool/a.deb"] = true.
+Proof. vm_compute. repeat split; reflexivity. Qed.
+
+(* The pool after a run that counts nothing, with cleaning: for EVERY previous
+   filesystem (stale files of removed packages, truncated leftovers of a crash,
+   files of other sizes at declared paths) and every queue of required pool
+   files with pairwise distinct paths, the pool stage followed by the removal
+   of everything outside the needed set leaves, path by path, exactly the size
+   the indices declare - and nothing at any other path. *)
+Theorem pool_tree_is_what_the_indices_declare :
+  forall u files fs t,
+  disjoint_files files -> forallb required_pool_file files = true ->
+  pool_run files u fs = (true, t) ->
+  forall p, sizes t p = declared files p.
+Proof. exact pool_tree_spec_lemma. Qed.
+Print Assumptions pool_tree_is_what_the_indices_declare.
+
+(* ... hence two histories that end with a successful run against the same
+   indices end with the same pool *)
+Theorem pool_tree_independent_of_history :
+  forall u files fs_a fs_b ta tb,
+  disjoint_files files -> forallb required_pool_file files = true ->
+  pool_run files u fs_a = (true, ta) -> pool_run files u fs_b = (true, tb) ->
+  forall p, sizes ta p = sizes tb p.
+Proof. exact pool_converges_lemma. Qed.
+Print Assumptions pool_tree_independent_of_history.
+
+(* Metadata: when the upstream answers the first request for the first path of
+   each queued release file / index with a complete body of a bytes dated d
+   (ann f = (variant, a, d); a <> 0 and equal to the declared size if there is
+   one), then after the stage - from EVERY previous filesystem, whether the
+   file is transferred or recognised as unmodified - every path of that variant
+   carries exactly (a, d). *)
+Theorem metadata_entries_determined_by_upstream :
+  forall swallow u files fs,
+  disjoint_files files ->
+  forall (ann : dfile -> variant * N * Z),
+  (forall f, In f files -> good_meta f u (fst (fst (ann f))) (snd (fst (ann f))) (snd (ann f))) ->
+  forall f q, In f files -> In q (vpaths (fst (fst (ann f)))) ->
+  lookup (snd (run_stage swallow files u fs)) q =
+  Some {| fsize := snd (fst (ann f)); fmt := Date (snd (ann f)) |}.
+Proof. exact metadata_stage_determined_lemma. Qed.
+Print Assumptions metadata_entries_determined_by_upstream.
+
+(* non-vacuity: a truncated leftover and a stale package; the run repairs the one, removes the other, and
+   ends where a first-ever mirror ends *)
+Example pool_converges_example :
+  let mk := fun p n => {| dname := p; variants := [{| vpaths := [p]; vsource := p; vsize := n |}];
+                          check_size := true; ignore_errors := false; ignore_missing := false |} in
+  let files := [mk "pool/a.deb" 7%N; mk "pool/b.deb" 5%N] in
+  let good := fun n => {| first := []; rest := {| pre_retries := 0; rbody := BOk (Some n) None n false |} |} in
+  let u := [("pool/a.deb", good 7%N); ("pool/b.deb", good 5%N)] in
+  let dirty := [("pool/a.deb", {| fsize := 3; fmt := Local |}); ("pool/old.deb", {| fsize := 9; fmt := Local |})] in
+  (forallb required_pool_file files = true) /\
+  (fst (pool_run files u dirty) = true) /\ (fst (pool_run files u []) = true) /\
+  (map (sizes (snd (pool_run files u dirty))) ["pool/a.deb"; "pool/b.deb"; "pool/old.deb"]
+   = [Some 7%N; Some 5%N; None]) /\
+  (map (sizes (snd (pool_run files u []))) ["pool/a.deb"; "pool/b.deb"; "pool/old.deb"]
+   = [Some 7%N; Some 5%N; None]).
 Proof. vm_compute. repeat split; reflexivity. Qed.
